@@ -187,6 +187,53 @@ theorem C05_resume_from_start_real (cfg : Cfg) (hI : cfg.InflateOk) (opts : Opti
   rw [run_agree realT_agree cfg _ hkg, resumeRun_agree realT_agree cfg L sched ops r0 hk] at this
   exact this
 
+/-- **C05 up to the first failure (`C05_resume_until_failure`) for the executable model's transformation**: `good` are
+    calls none of which fails on the reader that sees everything, `more` are any further calls; the contracts are
+    replaced by the shape of `r0`'s stored `tRNS` as in `C05_resume_complete_real` -/
+theorem C05_resume_until_failure_real (cfg : Cfg) (hI : cfg.InflateOk) (r0 : R) (hInv : Inv realT r0) (hk : KeyInv r0.dec)
+    (hr : r0.isReader = true) (hd : r0.dead = false) (L : Nat) (hL : r0.visible ≤ L) (good more : List Op)
+    (hc : ∀ op ∈ good, op.isCall = true) (sched : List Nat)
+    (hg : ∀ x ∈ (run cfg realT (growTo r0 L) good).2, x.isGood = true) :
+    ∃ ys zs zs', (run cfg realT (growTo r0 L) (good ++ more)).2 = (run cfg realT (growTo r0 L) good).2 ++ ys ∧
+      (run cfg realT (growTo r0 L) good).2 = resumeRun cfg realT L sched good r0 ++ zs ∧
+      (L ≤ r0.visible + sched.sum → zs = []) ∧
+      resumeRun cfg realT L sched (good ++ more) r0 = resumeRun cfg realT L sched good r0 ++ zs' := by
+  have hkg : KI (growTo r0 L) := hk
+  have := C05.C05_resume_until_failure cfg hI realTK realTK_ok realTK_stable r0 (hInv.of_agree realT_agree) hr hd L hL
+    good more hc sched (by rw [run_agree realT_agree cfg _ hkg good]; exact hg)
+  rw [resumeRun_agree realT_agree cfg L sched good r0 hk, resumeRun_agree realT_agree cfg L sched (good ++ more) r0 hk,
+    run_agree realT_agree cfg _ hkg good, run_agree realT_agree cfg _ hkg (good ++ more)] at this
+  exact this
+
+/-- **C05 from the start, up to the first failure** for the executable model's transformation and a NEW decoder: no
+    hypothesis about the transformation or the reader -/
+theorem C05_resume_from_start_until_failure_real (cfg : Cfg) (hI : cfg.InflateOk) (opts : Options) (limit : Nat)
+    (flags : Flags) (input : Bytes) (visible : Nat) (hlen : input.length < 2 ^ 32) (r0 : R) (L : Nat) (hv : visible ≤ L)
+    (h : step cfg realT (R.init opts limit flags input visible) .readInfo = (r0, .header)) (good more : List Op)
+    (hc : ∀ op ∈ good, op.isCall = true) (sched : List Nat)
+    (hg : ∀ x ∈ (run cfg realT (growTo (R.init opts limit flags input visible) L) (.readInfo :: good)).2, x.isGood = true) :
+    ∃ ys zs zs', (run cfg realT (growTo (R.init opts limit flags input visible) L) (.readInfo :: (good ++ more))).2 =
+        (run cfg realT (growTo (R.init opts limit flags input visible) L) (.readInfo :: good)).2 ++ ys ∧
+      (run cfg realT (growTo (R.init opts limit flags input visible) L) (.readInfo :: good)).2 =
+        .header :: (resumeRun cfg realT L sched good r0 ++ zs) ∧
+      (L ≤ visible + sched.sum → zs = []) ∧
+      resumeRun cfg realT L sched (good ++ more) r0 = resumeRun cfg realT L sched good r0 ++ zs' := by
+  have hk0 := ki_init opts limit flags input visible
+  have hkg : KI (growTo (R.init opts limit flags input visible) L) := hk0
+  have hk : KI r0 := ki_of_eq h (step_ki cfg realT _ .readInfo hk0)
+  have hP : PreInv (R.init opts limit flags input visible) := by
+    rcases rinv_init realTK opts limit flags input visible hlen with ⟨k, _⟩ | ⟨_, k, _⟩ | ⟨_, _, k⟩
+    · cases k
+    · cases k
+    · exact k
+  have h' : step cfg realTK (R.init opts limit flags input visible) .readInfo = (r0, .header) := by
+    rw [step_agree realT_agree cfg _ hk0]; exact h
+  have := C05.C05_resume_from_start_until_failure cfg hI realTK realTK_ok realTK_stable (R.init opts limit flags input visible)
+    r0 hP rfl rfl L hv h' good more hc sched (by rw [run_agree realT_agree cfg _ hkg]; exact hg)
+  rw [run_agree realT_agree cfg _ hkg, run_agree realT_agree cfg _ hkg,
+    resumeRun_agree realT_agree cfg L sched good r0 hk, resumeRun_agree realT_agree cfg L sched (good ++ more) r0 hk] at this
+  exact this
+
 /-! ## Non-vacuity: concrete `Info`s, rows and flags -/
 
 /-- decidable equality of creation results (for the `decide` examples below only) -/
